@@ -1,0 +1,50 @@
+//! Hooks for out-of-tree verification harnesses (feature `verif-hooks`).
+//!
+//! Everything in here only re-exports crate-private functionality or lets a
+//! harness substitute the wall clock; nothing is compiled without the feature.
+
+use std::collections::HashMap;
+use std::sync::Mutex;
+
+use chrono::{DateTime, Utc};
+
+use crate::models::supply_chain_item::SupplyChainItem;
+use crate::models::LinkMetadata;
+use crate::Result;
+
+pub use crate::models::verif_reexports::*;
+
+static CLOCK: Mutex<Option<DateTime<Utc>>> = Mutex::new(None);
+
+/// Substitute (Some) or restore (None) the clock used by the expiry check.
+pub fn set_clock(now: Option<DateTime<Utc>>) {
+    *CLOCK.lock().unwrap_or_else(|e| e.into_inner()) = now;
+}
+
+/// The substituted clock, if any.
+pub fn clock() -> Option<DateTime<Utc>> {
+    *CLOCK.lock().unwrap_or_else(|e| e.into_inner())
+}
+
+/// Apply the artifact rules of one step or inspection (private `rulelib`).
+pub fn apply_rules(
+    item: &Box<dyn SupplyChainItem>,
+    links: &HashMap<String, LinkMetadata>,
+) -> Result<()> {
+    crate::rulelib::apply_rules_on_link(item, links)
+}
+
+/// DSSE v1 pre-authentication encoding.
+pub fn pae_pack(payload_type: String, payload: &[u8]) -> Vec<u8> {
+    DSSEVersion::V1.pack(payload, payload_type)
+}
+
+/// DSSE v1 pre-authentication decoding.
+pub fn pae_unpack(bytes: &[u8]) -> Result<(Vec<u8>, String)> {
+    DSSEVersion::V1.unpack(bytes)
+}
+
+/// DSSE pre-authentication decoding, any known version.
+pub fn pae_try_unpack(bytes: &[u8]) -> Result<(Vec<u8>, String)> {
+    DSSEVersion::try_unpack(bytes)
+}
